@@ -81,8 +81,10 @@ impl StreamChunker {
         io_block_size: usize,
     ) -> Result<Chunk> {
         use std::io::Read;
-        // Can't do 0-byte I/O
-        let io_block_size = io_block_size.max(1);
+        // Can't do 0-byte I/O, and each refill re-reads up to one byte
+        // carried over from the previous block: we need room for at least
+        // one fresh byte, or the refill would look like EOF.
+        let io_block_size = io_block_size.max(2);
         while self.buf.slice().len() < 2 {
             let buf = self.buf.take();
 
